@@ -42,7 +42,7 @@ Section CancelTransparent.
   Proof.
     intros Hs Hs0. destruct (run_ctx_same f pat 0 stk m Hs Hs0) as (a & cs' & cs0' & E & E0 & Hs' & Hs0').
     unfold same, Cancel.eval_pattern. rewrite E, E0.
-    destruct a as [r|mb]; [destruct r as [stk' m'|v stk' m'|stk' m'|x0 m'| |]; [destruct stk'|..]|];
+    destruct a as [r|mb]; [destruct r as [stk' m'|v stk' m'|stk' m'|x0 m'| |]; [destruct stk'| | |destruct x0| |]|];
       do 3 eexists; repeat split; eauto.
   Qed.
 
@@ -57,7 +57,7 @@ Section CancelTransparent.
     - assert (Hst : same (fun c => if ir then (POk true stk m, c) else eval_pattern f p0 stk m c) cs cs0).
       { destruct ir; [unfold same; do 3 eexists; repeat split; eauto|apply eval_pattern_same; assumption]. }
       destruct Hst as (a & cs' & cs0' & E & E0 & Hs' & Hs0'). cbv beta in E, E0. rewrite E, E0.
-      destruct a as [b stk' m'|r]; [|do 3 eexists; repeat split; eauto].
+      destruct a as [b stk' m'|fl stk' m'|r]; [|do 3 eexists; repeat split; eauto|do 3 eexists; repeat split; eauto].
       destruct b; [|do 3 eexists; repeat split; eauto].
       destruct (eval_pattern_same f p1 stk' m' Hs' Hs0') as (a1 & cs1 & cs01 & E1 & E01 & Hs1 & Hs01).
       rewrite E1, E01. destruct a1; do 3 eexists; repeat split; eauto.
@@ -73,7 +73,8 @@ Section CancelTransparent.
       destruct inr as [|ir inr0]; [do 3 eexists; repeat split; eauto|].
       destruct (match_pattern_same f pats ir stk m Hs Hs0) as (a & cs1 & cs01 & E & E0 & Hs1 & Hs01).
       rewrite E, E0.
-      destruct a as [matched ir' stk1 m1|r]; [|do 3 eexists; repeat split; eauto].
+      destruct a as [matched ir' stk1 m1|fl ir' stk1 m1|r];
+        [|destruct fl; do 3 eexists; repeat split; eauto|do 3 eexists; repeat split; eauto].
       assert (Hgo : forall stk2 m2 c c0, silent c -> silent c0 ->
                 same (fun c => let '(o, inr'', cs3) := run_rules f rest inr0 stk2 m2 c in (o, ir' :: inr'', cs3)) c c0).
       { intros stk2 m2 c c0 Hc Hc0.
